@@ -26,4 +26,36 @@ CHECKS['C12'] = {
   'text': 'Decides the structural half of "no hidden state": every switch of the global error mode / global serializer is undone on all exits and restores a value read in the same call (R12.a/b); the writers of each process-wide object named in the property are exactly the sanctioned ones (R12.c); scratch state written during a production parse is reset where a parse starts (R12.d); serializer instance counters are balanced (R12.e). Does not decide independence from arbitrary earlier call sequences.',
   'note': 'Any statement containing a call is treated as may-raise for the pairing rules. Known finding: experimental indentSpecificities state.',
 }
+
+def _c(pid, technique, text, note):
+    CHECKS[pid] = {'technique': technique, 'text': text, 'note': note}
+
+_c('C02', 'taint-style dataflow (raw token text vs normalised) over all comparisons with keyword literals; purity summaries of the validators; evaluation of type-test conditions for every produced item type',
+   'Decides: case-insensitive keywords are compared in normalised form everywhere (R02.a); validation writes nothing and the validating flag guards only reporting (R02.b); the comment switch only filters yields (R02.c); every namespaced item type is accepted by its consumers (R02.d). Does not decide equality of the DOM with the denoted structure over the input space.',
+   'Raw/normalised tagging is flow-insensitive per function; one exemption (MS progid token) with its reason.')
+_c('C04', 'callback resolution + CFG post-dominance + extraction of the bracket-counting table and its sibling (start token) block',
+   'Decides: error callbacks hand the offending token to the bracket counter (R04.a); statement callbacks consume on every path with the default terminators and insert only well-formed rules (R04.b); end-of-input completion only in full-sheet mode with one EOF (R04.c); _tokensupto2 counts exactly the six brackets + FUNCTION, identically for the start token, and stops only at zero (R04.d). Does not decide DOM equality with the undamaged sheet.',
+   'Shape dependent on the if/elif counting chain; rewrites give ANALYSIS-ERROR.')
+_c('C10', 'exhaustive evaluation of the two name converters over all property-table keys; key-discipline dataflow on the variables block; CFG dominance for parent links; path-sensitive co-written-field analysis',
+   'Decides: DOM-name round trip for every known property (R10.a, exhaustive); _vars/seq key discipline and joint update (R10.b); single enumerator and cascade pick (R10.c); update targets the effective entry, remove reads before deleting (R10.d); properties get their parent before entering a block (R10.e); priority/name fields are written together (R10.f). Does not decide the multimap model over arbitrary histories.',
+   'The converter replacement functions are matched by shape, then simulated with the patterns read from the source.')
+_c('C11', 'may-raise-DOM and writes-self summaries to a fixpoint over a name-resolved call graph, one level of argument-sensitive pruning, CFG reachability write -> raise -> exceptional exit',
+   'Decides the commit-last discipline for every public mutator (>= 90 functions): no statement that can raise a DOM exception is reachable after a write rooted at the receiver (or at an object it holds) unless caught locally or overwritten (R11.a); read-only guard before the first write and the flag stored by every constructor (R11.b). Candidates were triaged by witness: genuine ones fixed or listed as known findings, infeasible ones exempted by (function, callee) with a reason. Does not decide "observably unchanged" as a statement about serialisations.',
+   'Over-approximating may-raise summaries; exemption table in rules/c11.py; two unconfirmed candidates (_cleanNamespaces) exempted and recorded in DESIGN.md.')
+_c('C13', 'purity summaries, macro-table closure/acyclicity under both expansion orders, finite-language extraction from regex automata compared with the CSS 2.1 keyword lists, unit membership on automata',
+   'Decides: validators are pure and only report with neverraise (R13.a/b); all 148 patterns expand and compile under bulk registration and re-expansion, identically (R13.c); 29 CSS 2.1 keyword-list properties accept exactly their keyword lists, unit macros exactly the CSS 2.1 units, unknown names rejected first (R13.d); conjunction upwards covers all declarations and all rule kinds (R13.e); properties know their block (R13.g). Thorough: no exponentially ambiguous validation pattern. Does not decide numeric grammars or spelling invariance of verdicts.',
+   'Oracle keyword lists typed from CSS 2.1 (run-in accepted as optional for display).')
+_c('C14', 'CFG must-pass-through (refresh after table write, lookup before delete) + shape rules on the macro environment reset + shared macro-table checks',
+   'Decides: every table write is followed by the known-name refresh (R14.a); removeProfile fails before deleting (R14.b); every branch that removes raw profiles recomputes the macro environment (R14.c); default-profile restriction cannot change validity (R14.d); macro tables closed/acyclic (R14.e); no verdict cache (R14.f). Does not decide verdict restoration over arbitrary histories.',
+   'Several obligations are source-shape matches of small functions; a rewrite yields a failing obligation that has to be re-read, see DESIGN.md risks.')
+_c('C15', 'index-space taint (enumerate over filtered views), CFG dominance of the in-use guard, Item-comparison lint, state-free view check',
+   'Decides: positions among filtered items never index another sequence (R15.a); the in-use test dominates namespace deletion (R15.b); Seq items are compared through .type/.value (R15.c); the namespace mapping keeps no state (R15.d); namespaced item types agree between producers and consumers (R15.e); parent links on insert (R15.f). Does not decide reachable namespace states or meaning preservation.',
+   '')
+_c('C16', 'table extraction from New.append, three-valued evaluation of type conditions, commit-block dominance',
+   'Decides: the specificity table equals (id; class, attribute; type, :not(type), pseudo-element) in root and :not() context (R16.a); item-type vocabulary agreement (R16.b); commit only when well-formed + all handlers return states (R16.c); list de-duplication / all-or-nothing / NamespaceErr path (R16.d). Does not decide counts for generated selectors.',
+   '')
+_c('C17', 'container-protocol coherence fixpoint over the class hierarchy, index-space rule, shape rules for canonicalisation branches',
+   'Decides: length/indexing/deletion/iteration of a filtering list class use one view (R17.a); parse-time and edit-time canonicalisation both handle all/duplicates, absent deletion rejected, empty list = all (R17.b); media query keyword predicates normalised, hand-back flag present, ten media types (R17.c); hand-back channel reset (R17.d). Does not decide canonicalisation over histories.',
+   '')
+
 NOT_APPLICABLE = {}
